@@ -1953,6 +1953,9 @@ class LeCreditBasedChannel(utils.EventEmitter):
                         logger.debug(
                             f'packet completed, {len(self.out_queue)} left in queue'
                         )
+                        # An SDU never carries more than one written packet: users
+                        # like ATT rely on the boundaries they wrote.
+                        break
 
                 # Construct the SDU with its header
                 assert len(payload) != 0
